@@ -86,6 +86,9 @@ pub fn remove_delays() {
 
 // ------------------------------------------------------------------ monitor
 
+/// Context for a fatal report if run() can not be stopped: (property, case json).
+pub static FATAL_CTX: Mutex<Option<(String, Value)>> = Mutex::new(None);
+
 pub struct Monitor {
     stop: Arc<AtomicBool>,
     pub stuck: Arc<AtomicBool>,
@@ -109,6 +112,9 @@ impl Monitor {
                 let mut snap: Vec<u64> = stats.iter().map(|s| s.calls.load(Ordering::SeqCst)).collect();
                 while !s2.load(Ordering::SeqCst) {
                     std::thread::sleep(Duration::from_millis(5));
+                    if CANCELLED.load(Ordering::SeqCst) {
+                        break; // cancelled by the scenario: go to the post-cancel watch
+                    }
                     let now = rec::data_events();
                     if now != last {
                         last = now;
@@ -128,6 +134,30 @@ impl Monitor {
                         w2.store(true, Ordering::SeqCst);
                         token.cancel();
                         break;
+                    }
+                }
+                // The token is cancelled by now (by the scenario or by the rule
+                // above). A runner that keeps going regardless cannot be stopped
+                // from here: judge by logical steps, then leave the process.
+                if token.is_canceled() && !s2.load(Ordering::SeqCst) {
+                    let snap: Vec<u64> = stats.iter().map(|s| s.calls.load(Ordering::SeqCst)).collect();
+                    let t1 = Instant::now();
+                    while !s2.load(Ordering::SeqCst) && t1.elapsed() < Duration::from_secs(20) {
+                        std::thread::sleep(Duration::from_millis(20));
+                        let live: Vec<usize> = (0..stats.len()).filter(|&i| !stats[i].dropped.load(Ordering::SeqCst)).collect();
+                        let many = !live.is_empty() && live.iter().all(|&i| stats[i].calls.load(Ordering::SeqCst) >= snap[i] + 500);
+                        if many {
+                            if let Some((prop, case)) = FATAL_CTX.lock().unwrap().clone() {
+                                let calls: Vec<u64> = stats.iter().map(|s| s.calls.load(Ordering::SeqCst)).collect();
+                                fatal_violation(
+                                    &prop,
+                                    &format!("{prop}|runner-does-not-stop-after-cancel"),
+                                    &format!("the cancellation token is set but run() does not return: every live block was called 500+ more times after cancellation; work() calls per block {calls:?}; case {case}"),
+                                    case,
+                                );
+                            }
+                            break;
+                        }
                     }
                 }
             })
@@ -327,6 +357,7 @@ fn c05_case(c: &GCase, rep: &mut Report) -> Vec<(String, String)> {
     let built = build(&p, false);
     let n = built.blocks.len();
     let order = permutation(&mut Rng::new(c.order_seed), n, c.order_kind);
+    *FATAL_CTX.lock().unwrap() = Some(("C05".into(), c.to_json(&p)));
     let o = run_graph(built, &order, true, c.delay_seed, 4);
     rep.count("mt_runs", 1);
     rep.count("events", o.events as u64);
@@ -377,6 +408,59 @@ fn c05_case(c: &GCase, rep: &mut Report) -> Vec<(String, String)> {
 
 // ---------------------------------------------------------------------- C06
 
+/// Executable model of the termination rule that the known finding is about:
+/// call every live block in add order; stop after a pass in which nobody
+/// answered Again/Pending. Run on the same program, stream size and add order,
+/// it predicts exactly what the recorded defect delivers; a real run that
+/// delivers something else is a different defect.
+fn known_rule_model(p: &Program, order: &[usize]) -> Result<Data, String> {
+    let built = build(p, false);
+    let sink = built.sink.clone();
+    let mut slots: Vec<Option<Box<dyn Block + Send>>> = built.blocks.into_iter().map(|b| Some(b.0)).collect();
+    let mut blocks: Vec<Box<dyn Block + Send>> = order.iter().map(|&i| slots[i].take().unwrap()).collect();
+    let mut eof = vec![false; blocks.len()];
+    for _ in 0..5_000_000u64 {
+        let mut done = true;
+        for (n, b) in blocks.iter_mut().enumerate() {
+            if eof[n] {
+                continue;
+            }
+            let ret = b.work().map_err(|e| format!("{e}"))?;
+            // 0 Again/Pending, 1 WaitForFunc, 2 WaitForStream(open), 3 WaitForStream(closed), 4 EOF
+            let kind = match &ret {
+                BlockRet::Again | BlockRet::Pending => 0,
+                BlockRet::WaitForFunc(_) => 1,
+                BlockRet::WaitForStream(s, _) => {
+                    if s.closed() {
+                        3
+                    } else {
+                        2
+                    }
+                }
+                BlockRet::EOF => 4,
+            };
+            drop(ret);
+            match kind {
+                0 => done = false,
+                1 | 2 => {
+                    if b.eof() {
+                        eof[n] = true;
+                    }
+                }
+                3 => {
+                    let _ = b.eof();
+                    eof[n] = true;
+                }
+                _ => eof[n] = true,
+            }
+        }
+        if done {
+            return Ok(sink.data());
+        }
+    }
+    Err("model did not terminate".into())
+}
+
 fn c06_case(c: &GCase, rep: &mut Report) -> Vec<(String, String)> {
     let mut prng = Rng::new(c.prog_seed);
     let p = gen_program(&mut prng, c.max_ops, true);
@@ -392,6 +476,7 @@ fn c06_case(c: &GCase, rep: &mut Report) -> Vec<(String, String)> {
     let built = build(&p, false);
     let n = built.blocks.len();
     let order = permutation(&mut Rng::new(c.order_seed), n, c.order_kind);
+    *FATAL_CTX.lock().unwrap() = Some(("C06".into(), c.to_json(&p)));
     let mut o = run_graph(built, &order, false, 0, 64);
     rep.count("graph_runs", 1);
     rep.count("events", o.events as u64);
@@ -434,8 +519,14 @@ fn c06_case(c: &GCase, rep: &mut Report) -> Vec<(String, String)> {
             let backlog = reference.len().saturating_sub(o.sink.len());
             if not_quiescent {
                 rep.count("returned_with_backlog", 1);
-                let class = if moving_non_again {
+                // Is this exactly what the recorded termination rule delivers?
+                let model = catch(|| known_rule_model(&p, &order));
+                let explained = matches!(&model, Ok(Ok(d)) if d.first_diff(&o.sink).is_none());
+                rep.count(if explained { "early_returns_explained_by_known_rule" } else { "early_returns_not_explained_by_known_rule" }, 1);
+                let class = if moving_non_again && explained {
                     "returned-before-quiescence|final-pass-had-data-moving-non-Again-call"
+                } else if moving_non_again {
+                    "returned-before-quiescence|delivers-less-than-the-known-termination-rule"
                 } else {
                     "returned-before-quiescence|final-pass-quiet"
                 };
@@ -535,7 +626,7 @@ fn c07_build(c: &C07Case) -> BuiltGraph {
     let (s, mut w) = VectorSourceBuilder::new(data).repeat(rep).build();
     blocks.push(Probe::wrap(Box::new(s)));
     for i in 0..c.chain {
-        if i == c.pos && c.kind == "fail" {
+        if i == c.pos && (c.kind == "fail" || c.kind == "fail-then-cancel") {
             let (dst, r) = rustradio::stream::new_stream();
             blocks.push(Probe::wrap(Box::new(FailAt { src: w, dst, k: c.k, calls: 0, msg: FAIL_MSG.into() })));
             w = r;
@@ -551,6 +642,13 @@ fn c07_build(c: &C07Case) -> BuiltGraph {
     }
     let got = Arc::new(Mutex::new(Vec::new()));
     blocks.push(Probe::wrap(Box::new(NullSink::new(w))));
+    if c.kind == "fail-then-cancel" {
+        // An independent sub-graph that keeps running after the chain died,
+        // added first so that run() joins it first.
+        let (s2, o2) = VectorSourceBuilder::new(vec![1u8; 100]).repeat(Repeat::infinite()).build();
+        blocks.insert(0, Probe::wrap(Box::new(NullSink::new(o2))));
+        blocks.insert(0, Probe::wrap(Box::new(s2)));
+    }
     rec::stream_size(0);
     BuiltGraph { blocks, sink: SinkHandle::U8(got) }
 }
@@ -560,7 +658,8 @@ fn c07_case(c: &C07Case, rep: &mut Report) -> Vec<(String, String)> {
     rec::clear();
     let built = c07_build(c);
     let n = built.blocks.len();
-    let order = permutation(&mut Rng::new(c.seed ^ 77), n, (c.seed % 3) as usize);
+    let order = if c.kind == "fail-then-cancel" { (0..n).collect() } else { permutation(&mut Rng::new(c.seed ^ 77), n, (c.seed % 3) as usize) };
+    let all_stats: Vec<Arc<ProbeStats>> = built.blocks.iter().map(|b| b.1.clone()).collect();
     YIELD_NO.store(0, Ordering::SeqCst);
     CANCEL_AT_YIELD.store(u64::MAX, Ordering::SeqCst);
     *CANCEL_SITE.lock().unwrap() = None;
@@ -581,8 +680,22 @@ fn c07_case(c: &C07Case, rep: &mut Report) -> Vec<(String, String)> {
                 do_cancel("outside-thread");
             }));
         }
+        "fail-then-cancel" => {
+            let us = c.k;
+            let st = all_stats.clone();
+            outside = Some(std::thread::spawn(move || {
+                // wait until the failure has happened, then cancel from outside
+                let t0 = Instant::now();
+                while st.iter().all(|s| s.errors.load(Ordering::SeqCst) == 0) && t0.elapsed() < Duration::from_secs(20) {
+                    std::thread::sleep(Duration::from_micros(200));
+                }
+                std::thread::sleep(Duration::from_micros(us % 5000));
+                do_cancel("outside-thread-after-failure");
+            }));
+        }
         _ => {}
     }
+    *FATAL_CTX.lock().unwrap() = Some(("C07".into(), c.to_json()));
     let o = run_graph(built, &order, c.mt, if c.seed % 2 == 0 { c.seed | 1 } else { 0 }, if c.mt { 6 } else { 200 });
     if let Some(h) = outside {
         let _ = h.join();
@@ -596,7 +709,7 @@ fn c07_case(c: &C07Case, rep: &mut Report) -> Vec<(String, String)> {
         return out;
     }
     let cancelled = CANCELLED.load(Ordering::SeqCst);
-    if c.kind == "fail" {
+    if c.kind == "fail" || c.kind == "fail-then-cancel" {
         if o.stats.iter().all(|s| s.errors.load(Ordering::SeqCst) == 0) {
             // the finite graph finished before the k-th call: no failure was injected
             rep.count("failure_not_reached", 1);
@@ -737,14 +850,14 @@ pub fn main(opts: &Opts, prop: &str) -> Report {
         _ => {
             let runs = opts.budget(16 * 60, 16 * 3000);
             for k in 0..runs {
-                let kind = ["cancel-outside", "cancel-at-yield", "cancel-inside", "fail"][(k % 4) as usize];
+                let kind = ["cancel-outside", "cancel-at-yield", "cancel-inside", "fail", "fail-then-cancel"][(k % 5) as usize];
                 let chain = rng.range(1, 5);
                 let c = C07Case {
                     kind: kind.to_string(),
-                    mt: rng.chance(1, 2),
+                    mt: rng.chance(1, 2) || kind == "fail-then-cancel",
                     seed: rng.next(),
                     k: match kind {
-                        "fail" => *rng.pick(&[1u64, 2, 5, 50]),
+                        "fail" | "fail-then-cancel" => *rng.pick(&[1u64, 2, 5, 50]),
                         "cancel-inside" => rng.range(1, 30) as u64,
                         "cancel-at-yield" => rng.range(0, 4000) as u64,
                         _ => rng.range(0, 30_000) as u64,
@@ -752,6 +865,7 @@ pub fn main(opts: &Opts, prop: &str) -> Report {
                     pos: rng.below(chain),
                     chain,
                     infinite: rng.chance(2, 3) || kind != "fail",
+
                 };
                 rep.eval();
                 rep.distinct(fnv_str(&format!("{}|{}|{}|{}|{}", c.kind, c.mt, c.pos, c.chain, c.k)));
